@@ -1,5 +1,3 @@
-import SlipVerif.Model.LoadForm
 import SlipVerif.Model.Num
-import SlipVerif.Driver.LoadForm
 import SlipVerif.Driver.Num
 import SlipVerif.Driver.Util
